@@ -42,6 +42,7 @@ class DtlsSim {
     std::string last_fault_kind = "none";
     std::string last_replayed_kind = "none";   // kind of the most recent replayed record (for signatures)
     int pmtu = 1500;
+    int speak = 0;                    // bit r: the application of role r sends a datagram the moment its side reports completion (before it has received anything)
     int complete_event[2] = { -1, -1 };   // event index at which each node was first seen complete
     bool post_completion_resend = false;  // a node that had already completed emitted handshake/CCS records again (final-flight resend)
     SealAudit audit;
